@@ -416,17 +416,15 @@ void WorldQ::on_send_event(const Event &e) {
           k->probe("d_mark_written");
         } else if (enabled("c03")) violate("C03.channel-file-modified", e.path + " written with " + printable(std::string(e.data, (size_t)e.ret), 20));
       } else if (dir == "bounce" && m) {
-        // note appended: "<addr>:\n text \n"
-        std::string s(e.data, (size_t)e.ret);
-        if (s.size() > 2 && s[0] == '<') {
-          size_t gt = s.find(">:\n");
-          std::string who = gt == std::string::npos ? "" : s.substr(1, gt - 1);
-          GRcpt *r = nullptr;
-          for (auto &x : m->rc) if (!x.marked && !x.noted && (x.last_verdict == 'D' || x.last_verdict == 'Z')) { if (x.addr == who || (x.addr.size() > who.size() && x.addr.compare(x.addr.size() - who.size(), who.size(), who) == 0)) { r = &x; break; } }
-          // (a recipient attempted again after a crash that lost its mark gets a second paragraph: that is the same recipient, not somebody else's note)
-          bool known_name = false; for (auto &x : m->rc) if (x.addr == who || (x.addr.size() > who.size() && x.addr.compare(x.addr.size() - who.size(), who.size(), who) == 0)) known_name = true;
-          if (!r && !known_name) for (auto &x : m->rc) if (!x.marked && !x.noted && (x.last_verdict == 'D' || x.last_verdict == 'Z')) { r = &x; break; }
-          if (r) { r->noted = true; r->note_seq = ++note_counter; k->probe("bounce_note"); }
+        // note appended: "<addr>:\n text \n". The write may come in pieces (a short write, a failure, a retry): what counts is what the
+        // record holds afterwards - a paragraph head at the start of a line for each failed recipient, as often as there are such recipients
+        Inode *bi = e.ino ? e.ino : k->lookup(e.path); std::string bd = bi ? bi->data : std::string();
+        if (e.off >= 0 && e.data && e.ret > 0) { size_t o = (size_t)e.off, n2 = (size_t)e.ret; if (bd.size() < o + n2) bd.resize(o + n2, '\0'); bd.replace(o, n2, std::string(e.data, n2)); }   // (observers see the event before or after the bytes land: make it after)
+        auto head_of = [&](const GRcpt &x) { std::string a = strip_prepend(x.addr); for (auto &c : a) if (c == '\n') c = '_'; return "<" + a + ">:\n"; };
+        auto count_heads = [&](const std::string &h) { size_t n = 0; for (size_t pos = bd.find(h); pos != std::string::npos; pos = bd.find(h, pos + 1)) if (pos == 0 || bd[pos - 1] == '\n' || had_lossy_crash) n++; return n; };   // (after a crash that lost unsynced data the record may hold garbage in front of a note: bounce/n is documented as not crash-proof)
+        for (auto &x : m->rc) if (!x.marked && !x.noted && (x.last_verdict == 'D' || x.last_verdict == 'Z')) {
+          std::string h = head_of(x); size_t have = count_heads(h), already = 0; for (auto &y : m->rc) if (&y != &x && y.noted && head_of(y) == h) already++;
+          if (have > already) { x.noted = true; x.note_seq = ++note_counter; k->probe("bounce_note"); }
         }
       }
       break;
